@@ -18,7 +18,7 @@ every Sop cube and Soes term an implicant, and the total cost under the document
 cubes, shared between outputs, plus one OR/XOR per extra cube in each output, weighted) equal to the optimum \
 found by an exhaustive shortest-path search over covering states (SOP/SOPES) or residual functions (ESOP). \
 n<=2 with 1..2 outputs exhaustively, all single functions of n=3, sampled lists for n=3 (2 outputs), n=4 (1 \
-output), n<=2 (3 outputs). non-trivial = some function neither constant nor literal; distinct = distinct \
+output), n<=2 (3 outputs), and sparse lists built from a shared cube pool for n=3 (3 outputs) and n=4 (2..3 outputs, SOP/SOPES). non-trivial = some function neither constant nor literal; distinct = distinct \
 (optimizer, n, functions, costs)";
 
 type Mask = u32; // subset of the 2^n <= 16 assignments
@@ -347,6 +347,86 @@ fn main() {
         let m3 = (1u64 << (1u64 << n3)) - 1;
         items.push(mk(op, n3, &[rng.next_u64() & m3, rng.next_u64() & m3, rng.next_u64() & m3], t));
     }
+    // sparse multi-output lists for the covering optimizers: every output is the OR of 1..3 cubes of a small
+    // shared pool (so that sharing a cube that is prime in no output can pay off); the oracle's state space is
+    // 2^(sum of the on-set sizes), kept <= 2^16.  n = 3 with 3 outputs, n = 4 with 2 and 3 outputs.
+    let sparse = if thorough { 1500 } else { 90 };
+    for k in 0..sparse {
+        let (n, outs) = [(4usize, 2usize), (3, 3), (4, 3)][k % 3];
+        let t = *rng.pick(&triples);
+        let cubes = all_cubes(n);
+        let fs: Vec<u64> = loop {
+            let pool: Vec<CubeM> = (0..rng.range(2, 4))
+                .map(|_| loop {
+                    let c = *rng.pick(&cubes);
+                    if c.lits() >= 2 {
+                        break c;
+                    }
+                })
+                .collect();
+            let fs: Vec<u64> = (0..outs)
+                .map(|_| {
+                    let mut f = 0u64;
+                    for _ in 0..rng.range(1, 3) {
+                        let c = rng.pick(&pool);
+                        f |= sat_mask(n, |a| c.sat(a)) as u64;
+                    }
+                    // sometimes one extra minterm
+                    if rng.chance(1, 3) {
+                        f |= 1u64 << rng.below(1 << n);
+                    }
+                    f
+                })
+                .collect();
+            let total: u32 = fs.iter().map(|f| f.count_ones()).sum();
+            if total <= 16 && fs.iter().all(|f| *f != 0) {
+                break fs;
+            }
+        };
+        items.push(mk(["sop", "sopes"][k % 2], n, &fs, t));
+        // the same sizes with a planted shared cube S that is prime in no output: output j = S | N_j where
+        // N_j is S with one literal flipped and another one dropped (so S is absorbed by a larger implicant of
+        // every output, yet sharing S between the outputs can be cheaper than covering each output by primes)
+        let kk = if n == 3 { 3 } else { rng.range(3, 4) };
+        let mut vars: Vec<usize> = (0..n).collect();
+        rng.shuffle(&mut vars);
+        let vars = &vars[..kk];
+        let mut sc = CubeM::new(0, 0);
+        for v in vars {
+            if rng.bool() {
+                sc.pos |= 1 << v;
+            } else {
+                sc.neg |= 1 << v;
+            }
+        }
+        let fs2: Vec<u64> = (0..outs)
+            .map(|j| {
+                let x = vars[j % kk];
+                let y = vars[(j + 1 + rng.below(kk - 1)) % kk];
+                let y = if y == x { vars[(j + 1) % kk] } else { y };
+                let mut nb = sc;
+                // flip x
+                if nb.pos & (1 << x) != 0 {
+                    nb.pos &= !(1u32 << x);
+                    nb.neg |= 1 << x;
+                } else {
+                    nb.neg &= !(1u32 << x);
+                    nb.pos |= 1 << x;
+                }
+                // drop y
+                nb.pos &= !(1u32 << y);
+                nb.neg &= !(1u32 << y);
+                let mut f = (sat_mask(n, |a| sc.sat(a)) | sat_mask(n, |a| nb.sat(a))) as u64;
+                if rng.chance(1, 5) {
+                    f |= 1u64 << rng.below(1 << n);
+                }
+                f
+            })
+            .collect();
+        if fs2.iter().map(|f| f.count_ones()).sum::<u32>() <= 18 {
+            items.push(mk(["sopes", "sop"][k % 2], n, &fs2, t));
+        }
+    }
     rng.shuffle(&mut items);
     let per = 64usize;
     let shards = (items.len() + per - 1) / per;
@@ -369,6 +449,12 @@ fn main() {
         required.push(format!("{}|n=3|outputs=1", op));
         required.push(format!("{}|n=3|outputs=2", op));
         required.push(format!("{}|n=4|outputs=1", op));
+        if op != "esop" {
+            // sparse multi-output lists (covering optimizers only: the ESOP search space is not bounded by the on-sets)
+            required.push(format!("{}|n=4|outputs=2", op));
+            required.push(format!("{}|n=3|outputs=3", op));
+            required.push(format!("{}|n=4|outputs=3", op));
+        }
         required.push(format!("sharing-strictly-cheaper|{}", op));
         if !ctx.cells.keys().any(|c| c.starts_with(&format!("{}|", op)) && c.ends_with("outputs=3")) {
             required.push(format!("{}|n=2|outputs=3", op));
